@@ -4,11 +4,12 @@
    Gen/LookupEnv.v (CodeGenEnvironment's filters/tests/globals), Gen/LookupInst.v (both instantiated with
    Generated/Gen_Lookup.v, which is regenerated from /repo on every run: pydsdl class forest, built-in template listings,
    bundled jinja2 names, per-language environment names, RESERVED_GLOBAL_ sets, T2 translation of the alias rule).
-   Quirk switches q_shared / q_dt_only / q_unchecked describe the code BEFORE fixes 1341207 / d35e4ad / 6db3613; the `_refuted` and
-   `_partial` theorems about them are kept as documentation.  The LIVE theorems are the full ones: C16_cache_transparent (memo keyed
+   Theorems about code that is no longer in /repo (quirk switches q_shared / q_dt_only / q_unchecked = the code BEFORE fixes
+   1341207 / d35e4ad / 6db3613) live in History/C16_history.v.  The LIVE theorems are the full ones: C16_cache_transparent (memo keyed
    by (walk, class)), C16_real_cache_transparent, C16_test_agrees_with_membership (T2-translated _field_is_instance),
    C16_user_global_never_shadows_builtin (T2-translated gate). *)
-From Verif Require Import Str Lookup LookupThm LookupEnv LookupEnvThm Gen_Lookup LookupInst LookupInstThm Gen_Pin_c16_loader Gen_Pin_c16_env.
+From Verif Require Import Str Lookup LookupThm LookupSortThm LookupEnv LookupEnvThm Gen_Lookup LookupInst LookupInstThm LookupComposeThm
+  Gen_Pin_c16_loader Gen_Pin_c16_env.
 From Coq Require Import Permutation.
 Import ListNotations.
 Open Scope N_scope.
@@ -49,45 +50,6 @@ Proof.
 Qed.
 Print Assumptions C16_cache_transparent.
 
-(* (A3) documentation of the code before fix 1341207 (memo keyed by class only, shared by both walks).  The full statement was false:
-   forest 1 -> 0 <- 2, no user template, built-in templates for 0 and 1; looking up 2 and then 1 yields the template of 0
-   for class 1 (finding F-LOOKUP-MEMO-CROSS). *)
-Theorem C16_cache_transparent_refuted :
-  exists (bases : cls -> list cls) (rank : cls -> nat) (fs pkg : option (cls -> option path)) (cs : list cls),
-    (forall c, (length (bases c) <= 1)%nat) /\ (forall c p, In p (bases c) -> (rank p < rank c)%nat) /\
-    (forall c, In c cs -> (rank c < 3)%nat) /\
-    run_seq bases true fs pkg 3 st0 cs <> map (fun c => spec_lookup fs pkg (chain_n bases (rank c) c)) cs.
-Proof.
-  exists w_bases, w_rank, (Some (fun _ => None)), (Some w_pkg), [2; 1].
-  split; [exact w_single|]. split; [exact w_rank_ok|]. split; [|exact shared_memo_refuted].
-  intros c [<-|[<-|[]]]; vm_compute; lia.
-Qed.
-Print Assumptions C16_cache_transparent_refuted.
-
-(* (A4) ... and the strongest true statement: the shared memo is transparent for every sequence whenever only one loader
-   exists or the built-in set has no template for a class AND for one of its proper ancestors. *)
-Theorem C16_cache_transparent_partial :
-  forall (bases : cls -> list cls) (rank : cls -> nat),
-    (forall c, (length (bases c) <= 1)%nat) -> (forall c p, In p (bases c) -> (rank p < rank c)%nat) ->
-  forall (fs pkg : option (cls -> option path)) (fuel : nat) (cs : list cls), (forall c, In c cs -> (rank c < fuel)%nat) ->
-    (fs = None \/ pkg = None \/
-     (forall c a, Tof pkg c <> None -> In a (tl (chain_n bases (rank c) c)) -> Tof pkg a = None)) ->
-    run_seq bases true fs pkg fuel st0 cs = map (fun c => spec_lookup fs pkg (chain_n bases (rank c) c)) cs.
-Proof.
-  intros bases rank H1 H2 fs pkg fuel cs Hf Hok.
-  exact (run_seq_sh bases rank H1 H2 fs pkg fuel Hok cs st0 Hf (inv_sh_nil bases rank fs pkg)).
-Qed.
-Print Assumptions C16_cache_transparent_partial.
-
-(* (A5) every built-in template set shipped in /repo (regenerated listing) satisfies the condition of (A4): for every
-   user-directory listing, either search policy and EVERY sequence of lookups on the real pydsdl hierarchy the unchanged
-   loader returns the nearest-ancestor result. *)
-Theorem C16_shipped_sets_cache_transparent :
-  forall lang l pol dirs cs, In (lang, l) g_builtin_listings ->
-    p_lookup_seq true pol dirs (Some l) cs = p_spec_seq pol dirs (Some l) cs.
-Proof. exact p_shipped_transparent. Qed.
-Print Assumptions C16_shipped_sets_cache_transparent.
-
 (* (A5') LIVE, on the real pydsdl hierarchy: any raw directory listings (every kind of file name), either policy, EVERY sequence *)
 Theorem C16_real_cache_transparent :
   forall pol dirs pkg cs, p_lookup_seq false pol dirs pkg cs = p_spec_seq pol dirs pkg cs.
@@ -98,7 +60,7 @@ Print Assumptions C16_real_cache_transparent.
    exactly <ClassName><TEMPLATE_SUFFIX> (so X.inc.j2, X.draft.j2, Xy.j2, x.j2, X.j2.bak, X.txt never count), and such a name does
    count for every class of the regenerated forest *)
 Theorem C16_only_exact_template_names :
-  forall listing c p, tmap p_name (p_tset listing) c = Some p -> In p listing /\ basename p = p_name c ++ g_template_suffix.
+  forall raw c p, p_idx raw c = Some p -> In p raw /\ basename p = p_name c ++ g_template_suffix.
 Proof. exact p_only_exact_names. Qed.
 Print Assumptions C16_only_exact_template_names.
 
@@ -106,26 +68,101 @@ Theorem C16_class_names_indexed : class_names_index_ok = true.
 Proof. exact class_names_index_true. Qed.
 Print Assumptions C16_class_names_indexed.
 
-(* (A6) directory enumeration order: two listings with the same entries (unique stems) in ANY order give the same results
-   for every sequence, memo discipline and start state. *)
+(* (A6) directory enumeration order.  list_templates of the bundled loaders is modelled (sorted, de-duplicated): the listing handed
+   to type_to_template depends only on the SET of names the directory walks produced -- any order, any repetition, duplicated stems
+   included (no NoDup premise); hence so does every lookup sequence, with the names of all user search paths taken together *)
+Theorem C16_listing_order_indep :
+  forall raw raw' : list path, (forall x, In x raw <-> In x raw') -> list_templates raw = list_templates raw'.
+Proof. exact list_templates_ext. Qed.
+Print Assumptions C16_listing_order_indep.
+
 Theorem C16_enum_order_indep :
-  forall bases q cname fuel (d d' p p' : option (list (str * path))) st cs,
-    operm d d' -> operm p p' ->
-    run_seq bases q (option_map (tmap cname) d) (option_map (tmap cname) p) fuel st cs =
-    run_seq bases q (option_map (tmap cname) d') (option_map (tmap cname) p') fuel st cs.
-Proof. exact enum_order_indep_lemma. Qed.
+  forall q pol (rs rs' : list (list path)) (pk pk' : list path) cs,
+    (forall x, In x (concat rs) <-> In x (concat rs')) -> (forall x, In x pk <-> In x pk') ->
+    p_lookup_seq q pol (Some rs) (Some pk) cs = p_lookup_seq q pol (Some rs') (Some pk') cs.
+Proof. exact p_enum_order_indep. Qed.
 Print Assumptions C16_enum_order_indep.
 
-(* (A7) get_source: a user template shadows the built-in template of the same name; the built-in one is the fallback *)
+(* (A7) get_source over the ordered roots: if a user search path holds the name, the file comes from the FIRST such path whatever
+   the package holds (user shadows built-in of the same name); the package is the fallback *)
 Theorem C16_user_shadows_builtin :
-  forall (fs : list path) pkg name, has_file fs name = true -> get_source (Some fs) pkg name = Some SrcFs.
-Proof. exact get_source_user_first. Qed.
+  forall (rs : list (list path)) pkg name i, first_root rs name 0 = Some i ->
+    get_source (Some rs) pkg name = Some (OUserDir i) /\
+    exists r, nth_error rs i = Some r /\ has_file r name = true /\
+              forall j r', (j < i)%nat -> nth_error rs j = Some r' -> has_file r' name = false.
+Proof.
+  intros rs pkg name i H. split; [exact (get_source_user_first rs pkg name i H)|].
+  destruct (first_root_spec name rs 0%nat i H) as [j [r [E [Hn [Hf Hmin]]]]]. cbn in E. subst j. exists r. auto.
+Qed.
 Print Assumptions C16_user_shadows_builtin.
 
 Theorem C16_builtin_is_fallback :
-  forall fs pkg name, has_file fs name = false -> has_file pkg name = true -> get_source (Some fs) (Some pkg) name = Some SrcPkg.
-Proof. exact get_source_fallback. Qed.
+  forall rs pkg name, (forall r, In r rs -> has_file r name = false) -> has_file pkg name = true ->
+    get_source (Some rs) (Some pkg) name = Some OPkg.
+Proof. intros rs pkg name H. exact (get_source_fallback rs pkg name (proj2 (first_root_none name rs 0%nat) H)). Qed.
 Print Assumptions C16_builtin_is_fallback.
+
+(* (A9) THE COMPOSITION: which FILE is rendered.  _generate_type hands type_to_template(type(T)).name to get_source.
+   Property's reading: the most specific class k of T's chain for which a file named exactly <k><suffix> exists in ANY root of the
+   loader chain (user search paths in order, then the package); rendered = that file in the FIRST root that has it
+   (p_spec_rendered).  True of the code when (1) no indexed template lives in a sub-directory and (2) no built-in template of a
+   nearer class is passed over for a user template of a more general class: *)
+Theorem C16_rendered_file_partial :
+  forall pol dirs pkg c, In c p_ids ->
+    p_flatb pol dirs pkg = true -> p_shadow_freeb pol dirs pkg c = true ->
+    p_rendered_seq false pol dirs pkg [c] = [p_spec_rendered pol dirs pkg c].
+Proof. exact p_rendered_partial. Qed.
+Print Assumptions C16_rendered_file_partial.
+
+(* (1) refuted (finding F-LOOKUP-SUBDIR-NAME): user dir {sub/StructureType.j2, CompositeType.j2}, package {StructureType.j2}:
+   type_to_template chooses sub/StructureType.j2, .name drops the directory; FIND_ALL renders the PACKAGE's StructureType.j2,
+   FIND_FIRST raises TemplateNotFound; the property designates the user's CompositeType.j2 *)
+Theorem C16_rendered_file_refuted_subdir :
+  p_lookup_seq false FIND_ALL (Some [[f_sub_struct; f_comp]]) (Some [f_struct]) [g_cls_StructureType] = [Some f_sub_struct] /\
+  p_rendered_seq false FIND_ALL (Some [[f_sub_struct; f_comp]]) (Some [f_struct]) [g_cls_StructureType] = [Rendered OPkg f_struct] /\
+  p_rendered_seq false FIND_FIRST (Some [[f_sub_struct; f_comp]]) (Some [f_struct]) [g_cls_StructureType] = [NotFound f_struct] /\
+  p_spec_rendered FIND_FIRST (Some [[f_sub_struct; f_comp]]) (Some [f_struct]) g_cls_StructureType = Rendered (OUserDir 0) f_comp /\
+  p_flatb FIND_FIRST (Some [[f_sub_struct; f_comp]]) (Some [f_struct]) = false.
+Proof. exact subdir_name_refuted. Qed.
+Print Assumptions C16_rendered_file_refuted_subdir.
+
+(* (2) refuted (finding F-LOOKUP-USER-GENERAL-FIRST; reading-dependent, DESIGN section 5 C16): under FIND_ALL a user CompositeType.j2
+   is rendered for a structure although the package has StructureType.j2 *)
+Theorem C16_rendered_file_refuted_user_general :
+  p_rendered_seq false FIND_ALL (Some [[f_comp]]) (Some [f_struct]) [g_cls_StructureType] = [Rendered (OUserDir 0) f_comp] /\
+  p_spec_rendered FIND_ALL (Some [[f_comp]]) (Some [f_struct]) g_cls_StructureType = Rendered OPkg f_struct /\
+  p_shadow_freeb FIND_ALL (Some [[f_comp]]) (Some [f_struct]) g_cls_StructureType = false /\
+  p_flatb FIND_ALL (Some [[f_comp]]) (Some [f_struct]) = true.
+Proof. exact user_general_refuted. Qed.
+Print Assumptions C16_rendered_file_refuted_user_general.
+
+(* non-vacuity: two user search paths and the package, the more specific class only in the SECOND path -> rendered from there *)
+Example C16_rendered_partial_premises_satisfiable :
+  let dirs := Some [[f_comp]; [f_struct; f_comp]] in
+  p_flatb FIND_ALL dirs (Some [f_struct]) = true /\ p_shadow_freeb FIND_ALL dirs (Some [f_struct]) g_cls_StructureType = true /\
+  p_rendered_seq false FIND_ALL dirs (Some [f_struct]) [g_cls_StructureType] = [Rendered (OUserDir 1) f_struct].
+Proof. exact rendered_partial_example. Qed.
+
+(* the same at the level of names, for EVERY forest: the lookup equals "nearest class with a template in ANY set" exactly when
+   shadow_freeb holds; refuted by forest 1 -> 0, user template for 0, built-in templates for 0 and 1 *)
+Theorem C16_nearest_in_any_set_partial :
+  forall (bases : cls -> list cls) (rank : cls -> nat),
+    (forall c, (length (bases c) <= 1)%nat) -> (forall c p, In p (bases c) -> (rank p < rank c)%nat) ->
+  forall fs pkg fuel c, (rank c < fuel)%nat ->
+    shadow_freeb (Tof fs) (Tof pkg) (chain_n bases (rank c) c) = true ->
+    snd (type_to_template bases false fs pkg fuel st0 c) = nearest_any (Tof fs) (Tof pkg) (chain_n bases (rank c) c).
+Proof.
+  intros bases rank H1 H2 fs pkg fuel c Hf Hs.
+  rewrite (cold_lookup bases rank H1 H2 false fs pkg fuel c Hf). unfold spec, chain.
+  rewrite spec_lookup_Tof. symmetry. exact (shadow_free_nearest _ _ _ Hs).
+Qed.
+Print Assumptions C16_nearest_in_any_set_partial.
+
+Theorem C16_nearest_in_any_set_refuted :
+  snd (type_to_template w_bases false (Some w_user) (Some w_pkg) 3 st0 1) <> nearest_any w_user w_pkg (chain_n w_bases (w_rank 1) 1)
+  /\ shadow_freeb w_user w_pkg (chain_n w_bases (w_rank 1) 1) = false.
+Proof. exact user_general_shadows_specific_builtin. Qed.
+Print Assumptions C16_nearest_in_any_set_refuted.
 
 (* (A8) facts about the regenerated pydsdl hierarchy and template listings *)
 Theorem C16_single_inheritance_ok : forest_ok = true /\ names_nodup = true.
@@ -148,8 +185,6 @@ Example C16_forest_hypotheses_satisfiable :
   (forall c, (length (w_bases c) <= 1)%nat) /\ (forall c p, In p (w_bases c) -> (w_rank p < w_rank c)%nat).
 Proof. exact (conj w_single w_rank_ok). Qed.
 
-Example C16_shipped_sets_nonempty : (length g_builtin_templates >= 3)%nat /\ builtin_sets_antichain = true.
-Proof. split; [vm_compute; lia | exact builtin_sets_antichain_true]. Qed.
 
 (* ---------------------------------------------------------------------------------------------------------------
    B. Instance tests *)
@@ -164,6 +199,28 @@ Theorem C16_aliases_disjoint_from_builtin_tests : aliases_disjointb = true.
 Proof. exact aliases_disjoint_true. Qed.
 Print Assumptions C16_aliases_disjoint_from_builtin_tests.
 
+(* (B1') availability and identity, for EVERY class of the regenerated forest below SerializableType or Attribute: the test named
+   after the class and the test named by its short lower-case alias exist and are bound to THAT class; and the model's table is the
+   same map as the table registered by the implementation (import-time dump of _create_all_dsdl_tests() with the class captured
+   in each closure) *)
+Theorem C16_tests_available_for_every_class :
+  forall c, In c p_ids -> below_roots c = true ->
+    aget p_tests (p_name c) = Some c /\ aget p_tests (p_alias (lower (p_name c))) = Some c.
+Proof. exact p_tests_available. Qed.
+Print Assumptions C16_tests_available_for_every_class.
+
+Theorem C16_registered_tests_agree : registered_agree_ok = true.
+Proof. exact registered_agree_true. Qed.
+Print Assumptions C16_registered_tests_agree.
+
+(* (B1'') `{% if v is <Class> %}` / `{% if v is <alias> %}` mean isinstance, for every such class and every value *)
+Theorem C16_test_truth_is_isinstance :
+  forall c v, In c p_ids -> below_roots c = true ->
+    p_test false (p_name c) v = Some (is_inst (v_cls v) c || (is_inst (v_cls v) g_cls_Attribute && is_inst (v_dt v) c)) /\
+    p_test false (p_alias (lower (p_name c))) v = Some (is_inst (v_cls v) c || (is_inst (v_cls v) g_cls_Attribute && is_inst (v_dt v) c)).
+Proof. exact p_test_truth. Qed.
+Print Assumptions C16_test_truth_is_isinstance.
+
 (* (B2) LIVE: the T2 translation of _field_is_instance, for ANY isinstance relation:
    test(root)(v) = "v is an instance of root, or v is an attribute whose data type is an instance of root" *)
 Theorem C16_test_agrees_with_membership :
@@ -177,20 +234,6 @@ Theorem C16_test_model_agrees_with_membership :
   forall bases fuel attr root v, field_is_instance bases false fuel attr root v = spec_test bases fuel attr root v.
 Proof. exact test_agrees_conformant. Qed.
 Print Assumptions C16_test_model_agrees_with_membership.
-
-(* documentation of the code before fix d35e4ad: it looked only at .data_type when the value is an attribute: false for an attribute that is itself an
-   instance of the root class (finding F-ATTR-TESTS-CONST-FALSE: `f is padding`, `attr is Field` are never true) *)
-Theorem C16_test_agrees_with_membership_refuted :
-  exists bases fuel attr root v, field_is_instance bases true fuel attr root v <> spec_test bases fuel attr root v.
-Proof. exists w_bases, 3%nat, 0, 1, {| v_cls := 1; v_dt := 5 |}. exact test_agrees_refuted_lemma. Qed.
-Print Assumptions C16_test_agrees_with_membership_refuted.
-
-Theorem C16_test_agrees_with_membership_partial :
-  forall bases fuel attr root v,
-    isinst bases fuel (v_cls v) attr && isinst bases fuel (v_cls v) root = false ->
-    field_is_instance bases true fuel attr root v = spec_test bases fuel attr root v.
-Proof. exact test_agrees_partial_lemma. Qed.
-Print Assumptions C16_test_agrees_with_membership_partial.
 
 (* on the real hierarchy the excluded case needs a root class of the Attribute family: no attribute class is related to a
    class below SerializableType *)
@@ -258,21 +301,6 @@ Theorem C16_checked_gate_never_shadows_builtin :
     str_in n defaults = true -> str_in n written = false -> str_in n lang = false -> dget g n = Some OBuiltin.
 Proof. exact builtin_globals_protected_checked. Qed.
 Print Assumptions C16_checked_gate_never_shadows_builtin.
-
-(* documentation of the code before fix 6db3613: the gate only checked the reserved names (F-ENV-GLOBALS) *)
-Theorem C16_user_global_shadows_builtin_refuted :
-  forall defaults reserved written lang n,
-    str_in n defaults = true -> str_in n reserved = false -> str_in n written = false -> str_in n lang = false ->
-    exists g, init_globals true defaults reserved written lang [(n, 0)] = Some g /\ dget g n = Some (OUser 0).
-Proof. exact user_global_shadows_builtin. Qed.
-Print Assumptions C16_user_global_shadows_builtin_refuted.
-
-Theorem C16_user_global_shadows_builtin_partial :
-  forall defaults reserved written lang user g n, init_globals true defaults reserved written lang user = Some g ->
-    str_in n (map fst user) = false ->
-    str_in n defaults = true -> str_in n written = false -> str_in n lang = false -> dget g n = Some OBuiltin.
-Proof. exact builtin_globals_protected_partial. Qed.
-Print Assumptions C16_user_global_shadows_builtin_partial.
 
 (* non-vacuity on the regenerated tables: `range` is a jinja default global that __init__ does not assign itself *)
 Example C16_range_is_protected :
